@@ -113,6 +113,24 @@ impl<E: FieldElement, H: ElementHasher<BaseField = E::BaseField>> VerifierChanne
             .parse(main_trace_width, aux_trace_width, constraint_frame_width)
             .map_err(|err| VerifierError::ProofDeserializationError(err.to_string()))?;
 
+        // the frame of the Lagrange kernel column must be present exactly when the AIR defines a
+        // Lagrange kernel column, and must consist of evaluations at z, z * g, z * g^2, ...,
+        // z * g^(2^(v-1)), where v = log2(trace_length); the constraint evaluator and the DEEP
+        // composer rely on this
+        let expected_lagrange_kernel_frame_size = air
+            .context()
+            .has_lagrange_kernel_aux_column()
+            .then(|| air.trace_length().ilog2() as usize + 1);
+        let lagrange_kernel_frame_size =
+            ood_trace_frame.lagrange_kernel_frame().map(|frame| frame.num_rows());
+        if lagrange_kernel_frame_size != expected_lagrange_kernel_frame_size {
+            return Err(VerifierError::ProofDeserializationError(format!(
+                "expected a Lagrange kernel out-of-domain frame of {} evaluations, but the proof contains {}",
+                expected_lagrange_kernel_frame_size.unwrap_or(0),
+                lagrange_kernel_frame_size.unwrap_or(0),
+            )));
+        }
+
         // --- check GKR proof --------------------------------------------------------------------
         // a GKR proof is consumed only when the trace has a Lagrange kernel column; in all other
         // cases it would not be bound to anything, and thus, a proof containing one is malformed
